@@ -1008,3 +1008,13 @@ M("C13.sum_points_wrapping", ["C13"], "emitter/otlp/src/data/metrics.rs",
             }""", "C13.R6:point-arithmetic")
 M("C10.sync_parent_outcome_dropped", ["C10"], "emitter/file/src/lib.rs",
   "        fs.sync_parent(file_path)?;\n", "        let _ = fs.sync_parent(file_path);\n", "C10")
+
+# ---- reverse patch of fix 4923149 (D21) and variants ---------------------------------------------------------------------------------
+M("C11.rev_fix_membership_bare_prefix_suffix", ["C11"], "emitter/file/src/lib.rs",
+  "            if is_file_in_set(file_name, file_prefix, file_ext) {",
+  "            if file_name.starts_with(&file_prefix) && file_name.ends_with(&file_ext) {", "C11.R10:own-files-only")
+M("C11.membership_ignores_extension", ["C11"], "emitter/file/src/lib.rs",
+  "        .and_then(|rest| rest.strip_suffix(file_ext))\n", "", "C11.R3:listing-filter")
+M("C11.membership_prefix_from_extension", ["C11"], "emitter/file/src/lib.rs",
+  "            if is_file_in_set(file_name, file_prefix, file_ext) {",
+  "            if is_file_in_set(file_name, file_ext, file_ext) {", "C11.R3:listing-filter")
